@@ -315,7 +315,7 @@ class SymStream:
     def read(self, n=-1):
         self.ncalls += 1
         self._cap()
-        rem = len(self.d) - self.pos
+        rem = max(0, len(self.d) - self.pos)     # a seek may have moved the position past the end
         if isinstance(n, SymInt):
             # bound the concretisation by what is left in the stream
             if sym.ENG.decide((n > rem).t):
@@ -358,6 +358,28 @@ class SymStream:
         self.log.append(('readline', None, start, len(out), fault))
         return SymBytes(out)
 
+    # a file object is seekable: position arithmetic as io.BytesIO does it (whence 0/1/2, clamped at 0)
+    def seekable(self):
+        return True
+
+    def readable(self):
+        return True
+
+    def tell(self):
+        return self.pos
+
+    def seek(self, off, whence=0):
+        if isinstance(off, SymInt):
+            off = sym.ENG.concretize(off.t)
+        base = 0 if whence == 0 else self.pos if whence == 1 else len(self.d)
+        new = base + off
+        if new < 0:
+            if whence == 0:
+                raise ValueError(f"negative seek value {off}")
+            new = 0
+        self.pos = new
+        return new
+
 
 class SymSocket(socket.socket):
     """socket double: recv(bufsize) returns a solver-chosen 1..min(bufsize, remaining) bytes; at most
@@ -393,7 +415,7 @@ class SymSocket(socket.socket):
                     raise OSError("injected")
                 self.log.append(['t'])
                 raise TimeoutError("injected")
-        rem = len(self.d) - self.pos
+        rem = max(0, len(self.d) - self.pos)     # a seek may have moved the position past the end
         if rem == 0:
             self.closed_seen = True
             self.lastcall['closed'] = True
